@@ -1,13 +1,22 @@
 import GsModel.Scan.Indent
+import GsModel.Scan.ListsProofs
 /-
   C17 — generate spec yields a valid, faithful document or an error; arbitrary comment text never crashes the scanner.
-  (proof for one parser stage, PARTIAL)
+  (proof for three parser stages, PARTIAL)
 
   * `removeIndent_total` — the indentation stripper of swagger:operation bodies returns for EVERY list of lines (no
     panic), and `removeIndent_keeps_lines` — it never drops or adds a line.
   * `unguarded_crashes` — the same function without the guards (the code before the repair) panics on an empty body and
     on a body whose first line is blank: the crash was real, the guard is what removes it.
   * `blank_first_line_is_identity` — what the guard does: a blank first line leaves the body untouched.
+  * `Schemes:` and the tag list of a `swagger:route` / `swagger:operation` line (model `Scan/Lists.lean`, the item
+    splitters that follow the regexp capture): `schemes_faithful` — whatever blanks are written around the commas and
+    wherever empty items stand, the scanned schemes are exactly the non-empty tokens written, in order;
+    `schemes_items_clean` — for EVERY captured string no scanned scheme is empty or carries a comma;
+    `schemes_split_loses_nothing`; `old_schemes_rule_merges` — the rule before the repair (`Split(", ")`) turns
+    `http,https` into ONE scheme.  `tags_faithful` — tokens separated by any non-empty runs of blanks (blanks before the
+    first and after the last allowed) are exactly the scanned tags; `tags_items_clean` — for EVERY captured string no tag
+    is empty or carries a blank (the empty tag `["pets",""]` of the code before the repair cannot come back).
   Everything else this property quantifies over (the ~40 regular expressions, sectionedParser, the YAML operation bodies,
   assembly and validity of the document) is NOT modelled: it is explored by generating annotated programs from the
   documented grammar (clean programs must scan into a valid document holding every annotated route, parameter, response
@@ -78,5 +87,135 @@ theorem removeIndent_example :
     (match removeIndent ["//   a: 1".toList, "//     b: 2".toList] with
      | .ok r => r == ["a: 1".toList, "  b: 2".toList]
      | _ => false) = true := by decide
+
+
+/-! ### `Schemes:` and route tags — the item splitters behind the regexp captures -/
+
+/-- how a scheme list is written: items separated by commas, each a (possibly empty) blank-free, comma-free token with
+    arbitrary blanks on both sides -/
+def renderSchemes (items : List (Str × Str × Str)) : Str :=
+  [','].intercalate (items.map (fun i => i.1 ++ i.2.1 ++ i.2.2))
+
+theorem schemes_faithful (sp : Char → Bool) (hcomma : sp ',' = false) (items : List (Str × Str × Str))
+    (hpadL : ∀ i ∈ items, ∀ c ∈ i.1, sp c = true) (hpadR : ∀ i ∈ items, ∀ c ∈ i.2.2, sp c = true)
+    (htok : ∀ i ∈ items, ∀ c ∈ i.2.1, sp c = false ∧ c ≠ ',') :
+    schemesOf sp (renderSchemes items) = (items.map (fun i => i.2.1)).filter (fun t => !t.isEmpty) := by
+  unfold schemesOf renderSchemes
+  by_cases hne : items = []
+  · subst hne; simp [List.intercalate, splitOn, trim]
+  · have hfree : ∀ t ∈ items.map (fun i => i.1 ++ i.2.1 ++ i.2.2), ∀ c ∈ t, c ≠ ',' := by
+      intro t ht c hc
+      simp only [List.mem_map] at ht
+      obtain ⟨i, hi, rfl⟩ := ht
+      simp only [List.mem_append] at hc
+      rcases hc with (hc | hc) | hc
+      · intro h; subst h; have := hpadL i hi _ hc; simp [hcomma] at this
+      · exact (htok i hi c hc).2
+      · intro h; subst h; have := hpadR i hi _ hc; simp [hcomma] at this
+    rw [splitOn_intercalate ',' _ (by simpa using hne) hfree, List.map_map]
+    congr 1
+    apply List.map_congr_left
+    intro i hi
+    exact trim_padded sp i.1 i.2.1 i.2.2 (hpadL i hi) (hpadR i hi) (fun c hc => (htok i hi c hc).1)
+
+/-- premises satisfiable, and the statement says something: `http ,, HTTPS , ws` (a no-break space after `ws`) -/
+example : schemesOf goIsSpace "http ,, HTTPS , ws ".toList = ["http".toList, "HTTPS".toList, "ws".toList] := by
+  decide
+
+theorem trim_sub (sp : Char → Bool) (s : Str) : ∀ c ∈ trim sp s, c ∈ s := by
+  intro c hc
+  unfold trim at hc
+  have h1 := (List.dropWhile_sublist sp (l := (s.dropWhile sp).reverse)).mem (by simpa using hc)
+  exact (List.dropWhile_sublist sp (l := s)).mem (by simpa using h1)
+
+/-- for EVERY captured string: no scanned scheme is empty, none carries a comma -/
+theorem schemes_items_clean (sp : Char → Bool) (s : Str) : ∀ t ∈ schemesOf sp s, t ≠ [] ∧ ∀ c ∈ t, c ≠ ',' := by
+  intro t ht
+  unfold schemesOf at ht
+  simp only [List.mem_filter, List.mem_map] at ht
+  obtain ⟨⟨piece, hp, rfl⟩, hne⟩ := ht
+  refine ⟨by intro h; simp [h] at hne, ?_⟩
+  intro c hc
+  have := splitOn_items_free (· = ',') s piece hp c (trim_sub sp piece c hc)
+  simpa using this
+
+/-- the split itself loses nothing: the pieces joined by commas are the captured string -/
+theorem schemes_split_loses_nothing (s : Str) : [','].intercalate (splitOn (· = ',') s) = s := splitOn_join ',' s
+
+/-- the rule before the repair: without a blank after the comma the two schemes become one item -/
+theorem old_schemes_rule_merges :
+    schemesOld goIsSpace "http,https".toList = ["http,https".toList] ∧
+    schemesOf goIsSpace "http,https".toList = ["http".toList, "https".toList] := by
+  constructor
+  · simp [schemesOld, splitCommaSpace, trim, goIsSpace]
+  · decide
+
+/-- how a tag list is written: blanks, then tokens each followed by blanks; only the last token may have none after it -/
+def WellSpaced (sp : Char → Bool) : List (Str × Str) → Prop
+  | [] => True
+  | (t, pad) :: rest =>
+    t ≠ [] ∧ (∀ c ∈ t, sp c = false) ∧ (∀ c ∈ pad, sp c = true) ∧ (pad = [] → rest = []) ∧ WellSpaced sp rest
+
+def renderTags (pad0 : Str) (items : List (Str × Str)) : Str :=
+  pad0 ++ (items.map (fun i => i.1 ++ i.2)).flatten
+
+theorem tags_faithful (sp : Char → Bool) (pad0 : Str) (items : List (Str × Str)) (h0 : ∀ c ∈ pad0, sp c = true)
+    (h : WellSpaced sp items) : fields sp (renderTags pad0 items) = items.map (·.1) := by
+  unfold renderTags
+  rw [fields_pad sp pad0 _ h0]
+  induction items with
+  | nil => simp [fields_nil]
+  | cons i rest ih =>
+    obtain ⟨t, pad⟩ := i
+    obtain ⟨hne, hfree, hpad, hlast, hrest⟩ := h
+    simp only [List.map_cons, List.flatten_cons]
+    cases pad with
+    | nil =>
+      have := hlast rfl
+      subst this
+      simpa using fields_tok_end sp t hne hfree
+    | cons c r =>
+      have hc : sp c = true := hpad c (by simp)
+      rw [List.append_assoc, List.cons_append, fields_tok sp t c _ hne hfree hc, ← List.cons_append,
+        fields_pad sp (c :: r) _ hpad, ih hrest]
+
+example : WellSpaced goIsSpace [("pets".toList, "  ".toList), ("users".toList, [])] ∧
+    fields goIsSpace " pets  users".toList = ["pets".toList, "users".toList] := by
+  refine ⟨?_, by decide⟩
+  simp [WellSpaced, goIsSpace]
+
+/-- for EVERY captured string: no tag is empty, none carries a blank -/
+theorem tags_items_clean (sp : Char → Bool) (s : Str) : ∀ t ∈ fields sp s, t ≠ [] ∧ ∀ c ∈ t, sp c = false := by
+  intro t ht
+  unfold fields at ht
+  simp only [List.mem_filter] at ht
+  exact ⟨by intro h; simp [h] at ht, splitOn_items_free sp s t ht.1⟩
+
+/-- the tags are all of the non-blank text: no character other than a blank is lost -/
+theorem tags_lose_only_blanks (sp : Char → Bool) (s : Str) : (fields sp s).flatten = s.filter (fun c => !sp c) := by
+  unfold fields
+  induction s with
+  | nil => simp [splitOn]
+  | cons c r ih =>
+    unfold splitOn
+    by_cases hc : sp c = true
+    · simp [hc, ih]
+    · simp only [hc]
+      have hne := splitOn_ne_nil sp r
+      cases hsp : splitOn sp r with
+      | nil => exact absurd hsp hne
+      | cons a as =>
+        rw [hsp] at ih
+        simp only [Bool.false_eq_true, ↓reduceIte]
+        have : List.filter (fun t => !t.isEmpty) ((c :: a) :: as) = (c :: a) :: List.filter (fun t => !t.isEmpty) as := by
+          simp
+        rw [this]
+        simp only [List.flatten_cons, List.cons_append]
+        by_cases ha : a = []
+        · subst ha; simp_all
+        · have : List.filter (fun t => !t.isEmpty) (a :: as) = a :: List.filter (fun t => !t.isEmpty) as := by
+            simp [ha]
+          rw [this] at ih
+          simp_all
 
 end Gs.Props.C17
